@@ -12,9 +12,15 @@ def instances(tier):
         yield 'core-len4', dict(BASE, max_len=4), 'AlphaC04core', None
         yield 'len3', dict(BASE, max_len=3), 'AlphaC04', None
         yield 'sim8', dict(BASE, max_len=8), 'AlphaC04', 'num=2000'
+        # overlaps that lie entirely below / above the image window still have to be rejected
+        yield 'window-above-len3', dict(BASE, max_len=3, win_start=9, win_end=12), 'AlphaC04core', None
+        yield 'window-below-len3', dict(BASE, max_len=3, win_start=0, win_end=0, fill=7), 'AlphaC04core', None
     else:
         yield 'len5', dict(BASE, max_len=5), 'AlphaC04', None
         yield 'sim10', dict(BASE, max_len=10), 'AlphaC04', 'num=30000'
+        yield 'window-above-len4', dict(BASE, max_len=4, win_start=9, win_end=12), 'AlphaC04core', None
+        yield 'window-below-len4', dict(BASE, max_len=4, win_start=0, win_end=0, fill=7), 'AlphaC04core', None
+        yield 'window-middle-len4', dict(BASE, max_len=4, win_start=3, win_end=4), 'AlphaC04core', None
 
 
 def run(chk):
@@ -22,7 +28,7 @@ def run(chk):
                 'zones, a zone-relative origin, zerountil and one predefined data block (6..7), in any source order up to '
                 'MaxLen lines, and checks NoSilentOverlap / OverlapRejectionJustified (adjacent check <=> pairwise '
                 'disjointness) on the specification; each scenario is assembled by the real code and compared on '
-                'accept/reject, on whether a rejection is an overlap rejection, and on the image. '
+                'accept/reject, on whether a rejection is an overlap rejection, and on the image; also with image windows (-s/-e) that leave the overlapping lines outside. '
                 'Non-trivial = contains an origin / zone line; distinct by program text.')
     chk.assumptions = ['overlap between a muted and an unmuted line is left open (not generated here: no mute letters)',
                        'rejection reason is classified from the message substring "overlaps with bytecode" only']
